@@ -212,6 +212,42 @@ pub fn run(tier: Tier) -> i32 {
         }
     }
 
+    // ---- 2b. encoding into a buffer that is kept: frames appended one after the other, refused encodes in between.
+    //          The buffer must hold exactly the encodings of the accepted frames (a refusal emits nothing).
+    {
+        let seqs: Vec<Vec<usize>> = vec![vec![5, 70000, 3], vec![70000, 4], vec![0, 65536, 0], vec![65535, 65536, 1], vec![1, 2, 3], vec![200000, 200000, 7]];
+        for seq in seqs {
+            rep.case(Some(&format!("appended {:?}", seq)));
+            let mut out = BytesMut::new();
+            let mut want: Vec<u8> = vec![];
+            let mut refused = vec![];
+            for (i, len) in seq.iter().enumerate() {
+                let data = body(*len, 30 + i as u32);
+                let cmd = if i % 2 == 0 { Command::Push } else { Command::Waste };
+                let before = out.len();
+                match FrameCodec.encode(Frame::with_data(cmd, 100 + i as u32, Bytes::from(data.clone())), &mut out) {
+                    Ok(()) => {
+                        if *len <= 65535 {
+                            want.extend_from_slice(&enc(if i % 2 == 0 { PSH } else { WASTE }, 100 + i as u32, &data));
+                        } else {
+                            // an encoder that splits instead of refusing: whatever it appended must parse into frames carrying the data
+                            let (frames, left) = parse_all(&out[before..]);
+                            let cat: Vec<u8> = frames.iter().flat_map(|f| f.data.clone()).collect();
+                            if left != 0 || cat != data {
+                                rep.violation("C03:encoder-header-disagrees-with-payload", &format!("appending a {len}-byte frame succeeded but the appended bytes do not parse into frames carrying it"), json!({"engine": "IX", "appended": seq}));
+                            }
+                            want.extend_from_slice(&out[before..]);
+                        }
+                    }
+                    Err(_) => refused.push(*len),
+                }
+            }
+            if out[..] != want[..] {
+                rep.violation("C03:refused-encode-leaves-bytes-in-the-buffer", &format!("frames of payload lengths {:?} encoded one after the other into one buffer ({:?} refused): the buffer holds {} bytes, the accepted frames encode to {} bytes", seq, refused, out.len(), want.len()), json!({"engine": "IX", "appended": seq}));
+            }
+        }
+    }
+
     // ---- 3. chunking independence
     let alphabet: Vec<Vec<u8>> = vec![
         enc(0, 0, b""),
@@ -341,5 +377,5 @@ pub fn run(tier: Tier) -> i32 {
         }
     }
     rep.sections.insert("parts".into(), json!({"length_sweep": 65536, "cmd_x_id_x_boundary_len": 256 * ids.len() * lens.len(), "chunking_streams": streams.len(), "chunking_cases": chunk_cases, "arbitrary_header_bytes": arb, "length_fields": 65536}));
-    rep.finish("IX against an independent reference codec: all 65536 payload lengths; all 256 command bytes x 39 ids x 8 boundary lengths; over-long payloads; every sequence of <=3 frames over a 9-frame alphabet (+ every proper prefix for <=2 frames) under every cut pattern (<=16/20 bytes) or every <=2/3-cut pattern, and byte-at-a-time; every value of each header byte in 4 contexts; all 65536 length fields against a short buffer; non-trivial = distinct (length | cmd,id,len | stream) case")
+    rep.finish("IX against an independent reference codec: all 65536 payload lengths; all 256 command bytes x 39 ids x 8 boundary lengths; over-long payloads (also appended to a kept buffer between accepted frames); every sequence of <=3 frames over a 9-frame alphabet (+ every proper prefix for <=2 frames) under every cut pattern (<=16/20 bytes) or every <=2/3-cut pattern, and byte-at-a-time; every value of each header byte in 4 contexts; all 65536 length fields against a short buffer; non-trivial = distinct (length | cmd,id,len | stream) case")
 }
